@@ -93,7 +93,7 @@ class FilterTruthy(NodeUpdate):
     """filter(None): the predicate is streamz.core._truthy (inlined)."""
     cls = 'filter'
     name = 'filter.update[predicate=None]'
-    props = ['C01', 'C10']
+    props = ['C01', 'C05', 'C10', 'C16']
     inline = ('_truthy',)
 
     def make_self(self, I):
@@ -108,7 +108,7 @@ class FilterTruthy(NodeUpdate):
         return [
             Clause('C01.passes_iff_truthy', ['C01'], text='emitted == ([x] if x else [])'),
             Clause('C10.metadata_unchanged', ['C10'], text='emitted_md == ([metadata] if x else [])'),
-        ]
+        ] + self.standard_clauses() + downstream_raise_clauses(self)
 
 
 class UnionUpdate(NodeUpdate):
